@@ -338,6 +338,78 @@ def check_mutated(shape_name, cls, shift, res):
             res.outcomes[f"mutated:{mut}"] += 1
 
 
+# ------------------------------------------------------------------------------ obstacles that were used or moved before the query
+
+# shapes whose reference point is not the origin of the obstacle frame (a vehicle referenced at its rear axle, a trailer, ...); the statement
+# does not fix the pivot for these, so they are only used with the differential oracle below
+OFF_SHAPES = {"rect-offcentre": ["rect", 4.0, 2.0, 1.25, 0.0, 0.0], "rect-offcentre-rotated": ["rect", 3.0, 1.0, -0.5, 0.75, 0.4], "circle-offcentre": ["circle", 1.0, 0.5, -0.25],
+              "poly-offcentre": ["poly", [[0.0, -1.0], [4.0, -1.0], [5.0, 0.0], [4.0, 1.0], [0.0, 1.0]]]}
+MOVES = [((0.0, 0.0), 0.0), ((3.0, -1.5), 0.0), ((0.0, 0.0), 0.7), ((2.0, 1.0), -2.5), ((0.0, 5.0), math.pi / 2), ((-4.0, 0.0), 1e-3)]
+USES = ["none", "touch-shape-caches", "query-all-times", "touch+query"]
+
+
+def _move_state(st, tr, a):
+    st = {"cls": st["cls"], "attrs": dict(st["attrs"])}
+    x, y = st["attrs"]["position"]
+    c, s_ = math.cos(a), math.sin(a)
+    st["attrs"]["position"] = [c * (x + tr[0]) - s_ * (y + tr[1]), s_ * (x + tr[0]) + c * (y + tr[1])]
+    th = st["attrs"]["orientation"] + a
+    while th > 2 * math.pi:          # the same angle inside the admissible range [-2pi, 2pi]
+        th -= 2 * math.pi
+    while th < -2 * math.pi:
+        th += 2 * math.pi
+    st["attrs"]["orientation"] = th
+    return st
+
+
+def check_reached(role, shape_name, res):
+    """differential oracle (independent of the pivot convention): an obstacle that was inspected and / or moved by translate_rotate answers every
+    occupancy query like an obstacle freshly constructed from the (independently transformed) spec"""
+    import numpy as np
+    sh = dict(SHAPES, **OFF_SHAPES)[shape_name]
+    snap.RECT_VERTICES = True
+    try:
+        for shift in (0, 2):
+            base, _ = obstacle_spec("static" if role == "static" else "dynamic-traj", "rect", "KSState", 0, 3, shift, 0)
+            base["shape"] = sh
+            if base.get("prediction"):
+                base["prediction"]["shape"] = sh
+            for use in USES:
+                for mi, (tr, a) in enumerate(MOVES):
+                    case = {"k": "reached", "role": role, "shape": shape_name, "shift": shift, "use": use, "move": mi}
+                    tag = f"{role}|{shape_name}|use:{use}|move:{'none' if mi == 0 else ('translation' if a == 0 else 'rotation')}"
+                    res.evals += 1; res.transitions += 1; res.nontrivial += 1; res.states += 1
+                    now = {k: v for k, v in base.items()}
+                    now["initial_state"] = _move_state(base["initial_state"], tr, a)
+                    if base.get("prediction"):
+                        now["prediction"] = dict(base["prediction"], states=[_move_state(x, tr, a) for x in base["prediction"]["states"]])
+                    try:
+                        o = spec.mk_obstacle(base)
+                        if "touch" in use:
+                            for shp in [o.obstacle_shape] + ([o.prediction.shape] if getattr(o, "prediction", None) is not None else []):
+                                for m in (getattr(shp, "shapes", None) or [shp]):
+                                    getattr(m, "vertices", None); m.shapely_object; m.contains_point(np.array([0.3, 0.2]))
+                        if "query" in use:
+                            for t in range(0, 6):
+                                o.occupancy_at_time(t)
+                        if mi:
+                            o.translate_rotate(np.array(tr), a)
+                        fresh = spec.mk_obstacle(now)
+                        for t in range(0, 6):
+                            g, e = o.occupancy_at_time(t), fresh.occupancy_at_time(t)
+                            gs, es = (None if g is None else snap.shape(g.shape)), (None if e is None else snap.shape(e.shape))
+                            d = None if (gs is None and es is None) else ("none-mismatch" if (gs is None) != (es is None) else
+                                                                         next(iter(snap.diff(es, gs, tol_point=TOL, tol_real=TOL, angle_mod=True, tol_angle=TOL)), None))
+                            if d:
+                                res.violation(f"C04|{tag}|differs-from-freshly-built-obstacle", f"{case} t={t}: {d}", dict(case, t=t))
+                                break
+                    except Exception as e:
+                        res.violation(f"C04|{tag}|raises:{type(e).__name__}", f"{case}: {e!r}", case)
+                    res.outcomes[f"reached:{use}"] += 1
+    finally:
+        snap.RECT_VERTICES = False
+
+
 # ------------------------------------------------------------------------------ uncertain states
 
 REGIONS = {"rect": ["rect", 2.0, 1.0, 5.0, 3.0, 0.0], "rect-rotated": ["rect", 2.0, 1.0, 5.0, 3.0, 0.6], "circle": ["circle", 0.8, 5.0, 3.0],
@@ -564,6 +636,9 @@ def units(tier):
     u.append({"k": "exact", "role": "dynamic-set", "shape": "rect"}); u.append({"k": "exact", "role": "phantom", "shape": "rect"})
     for role in ("dynamic-set", "phantom"):
         u.append({"k": "exact-iv", "role": role})
+    for role in ("static", "dynamic"):
+        for sn in list(SHAPES) + list(OFF_SHAPES):
+            u.append({"k": "reached", "role": role, "shape": sn})
     for sn in ("rect", "circle", "poly"):
         u.append({"k": "mutated", "shape": sn})
     for role in ("static", "dynamic"):
@@ -591,6 +666,9 @@ def run_unit(unit, tier):
                         check_exact(osp, tag, res)
                         res.states += 1
         res.sample({"k": "exact", "role": role, "shape": sn, "cls": cls}, 1)
+    elif k == "reached":
+        check_reached(unit["role"], unit["shape"], res)
+        res.sample(dict(unit, uses=USES, moves=MOVES), 1)
     elif k == "exact-iv":
         for layout in IV_LAYOUTS:
             for t0 in (0, 3):
@@ -623,6 +701,8 @@ def replay(case):
         check_exact(case["obstacle"], case["tag"], res)
     elif case["k"] == "mutated":
         check_mutated(case["shape"], case["cls"], case["shift"], res)
+    elif case["k"] == "reached":
+        check_reached(case["role"], case["shape"], res)
     elif case["k"] == "uncertain":
         check_uncertain(case["role"], case["shape"], case["region"], case["half"], case["ref"], res)
     else:
